@@ -66,7 +66,9 @@ def check_C04(tier):
     if tier == 'thorough':
         # the deeper tier adds search Sids ('*' at every subset of positions) under every single-pair overlay
         c1 += core_family(rep, env, conf, 'query', 'thorough', 'C04 family: typed search Sids (every subset of positions starred) x one-pair overlays')
-    c2 = core_family(rep, env, conf, 'getwith', tier, 'C04 family: typed Sids x keyword overlays incl. None')
+    c2 = core_family(rep, env, conf, 'getwith', 'quick', 'C04 family: typed Sids x keyword overlays of up to two pairs incl. None')
+    if tier == 'thorough':
+        c2 += core_family(rep, env, conf, 'getwith', 'thorough', 'C04 family: typed search Sids x one keyword overlay incl. None')
     rep.exhaustive = True
     need = ['NoType', 'OneType', 'ManyKeepsOld', 'ManySearchFirst']
     for b in need:
